@@ -74,14 +74,15 @@ def ref_markers(stats, out, tmp, n_proc=2, max_gb=1, n_valid=3, exact=False, **k
             f.create_dataset('metadata', data=json.dumps({'precomputed_path': str(stats)}).encode())
 
 
-def query_markers(refm, query_genes, tmp, n_proc=2, n_per_utility=2, behemoth_cutoff=1000000, override=None):
+def query_markers(refm, query_genes, tmp, n_proc=2, n_per_utility=2, behemoth_cutoff=1000000, override=None,
+                  **kw):
     from cell_type_mapper.type_assignment.marker_cache_v2 import create_marker_gene_lookup_from_ref_list
     with warnings.catch_warnings():
         warnings.simplefilter('ignore')
         return create_marker_gene_lookup_from_ref_list(
             [refm], query_gene_names=list(query_genes), n_per_utility=n_per_utility,
             n_per_utility_override=override, n_processors=n_proc, behemoth_cutoff=behemoth_cutoff,
-            tmp_dir=tmp)
+            tmp_dir=tmp, **kw)
 
 
 def p_value_mask(stats, out, tmp, n_proc=2, n_per=3, **kw):
